@@ -305,6 +305,7 @@ def cpStep (_st : Unit) (line : String) (t : Tally) : Except String (Unit × Tal
     if g "unlinked" != 0 then .error s!"C05: {g "unlinked"} of {g "table"} entries present in the table are unknown to the eviction policy (linked in no deque)"
     else if g "deadlinked" != 0 then .error s!"C05: {g "deadlinked"} removed entries are still tracked by the eviction policy"
     else if g "dup" != 0 then .error s!"C05: {g "dup"} nodes are linked more than once"
+    else if g "notalive" != 0 then .error s!"C05: {g "notalive"} of {g "table"} nodes installed in the table are retired or dead (a removed entry is still present)"
     else if g "linked" != g "table" then .error s!"C05: the eviction policy tracks {g "linked"} nodes, the table holds {g "table"}"
     else if g "ws" != g "sumtable" then .error s!"C05: weightedSize = {g "ws"} but the entries present weigh {g "sumtable"}"
     else if g "coldest" != g "all" then .error s!"C05: Coldest enumerates {g "coldest"} entries, All {g "all"}"
@@ -445,6 +446,38 @@ def ukStep (m : List (Nat × Nat)) (line : String) (t : Tally) : Except String (
   | ["clear"] => .ok ([], t.bump "clear")
   | _ => .error "unknown line"
 
+/-! ### conc-window: one goroutine's action placed inside another's critical window (C09, C08) -/
+
+def cwStep (_st : Unit) (line : String) (t : Tally) : Except String (Unit × Tally) :=
+  let ws := splitWs line
+  match ws with
+  | "cfg" :: _ => .ok ((), t)
+  | "missgap" :: rest =>
+    let g := natOf rest
+    let kv (k : String) := (kvOf rest k).getD ""
+    if kv "finished" != "true" then .error s!"C08: a Get whose key was created by another goroutine between its lookup and the registration of its load never returned"
+    else if kv "entered" != "true" then .ok ((), t.bump "missgap_inconclusive")
+    else if kv "present" != "true" || g "final" != g "want" then
+      .error s!"C09: key {g "key"} was written ({g "want"}) while a load for it was in flight (the loader was running), yet afterwards the cache holds {g "final"} present={kv "present"} — the loaded value {g "loaded"} replaced the write (write kind {g "how"})"
+    else .ok ((), t.bump "missgap_rounds")
+  | "lockedwrite" :: rest =>
+    let g := natOf rest
+    let kv (k : String) := (kvOf rest k).getD ""
+    if kv "finished" != "true" then .error s!"C08: a load whose completion raced a Compute on the same key never returned"
+    else if kv "entered" != "true" || kv "holding" != "true" then .ok ((), t.bump "lockedwrite_inconclusive")
+    else if kv "present" != "true" || g "final" != g "want" then
+      .error s!"C09: key {g "key"}: a Compute that was inside its remapping function when the loader returned wrote {g "want"}, yet afterwards the cache holds {g "final"} present={kv "present"} — the loaded value {g "loaded"} was installed over the write"
+    else .ok ((), t.bump "lockedwrite_rounds")
+  | "failretry" :: rest =>
+    let g := natOf rest
+    let kv (k : String) := (kvOf rest k).getD ""
+    if kv "finished" != "true" then .error s!"C08: a caller of a failing load (or its retry) never returned"
+    else if kv "entered" != "true" || kv "holding" != "true" || kv "joinederr" != "true" then .ok ((), t.bump "failretry_inconclusive")
+    else if kv "retryerr" == "true" || g "retry" != g "want" || g "freshcalls" == 0 then
+      .error s!"C08: a caller that had joined a failed load retried key {g "key"} at once and got {g "retry"} (error={kv "retryerr"}, loader invoked {g "freshcalls"} times): the failed call was still registered, the retry did not load afresh"
+    else .ok ((), t.bump "failretry_rounds")
+  | _ => .error "unknown line"
+
 /-! ### conc-refresh: a reload in flight behind concurrent readers, default executor (C11, C08) -/
 
 def crfStep (_st : Unit) (line : String) (t : Tally) : Except String (Unit × Tally) :=
@@ -457,7 +490,7 @@ def crfStep (_st : Unit) (line : String) (t : Tally) : Except String (Unit × Ta
     let oc := kv "outcome"
     let t := (t.bump "rounds").bump ("outcome_" ++ oc)
     let t := if kv "explicit" == "true" then t.bump "explicit_refreshes" else t.bump "stale_read_refreshes"
-    if kv "started" != "true" then .error s!"C11: the refresh time of key {g "key"} had passed but neither the reads nor the explicit Refresh handed a reload to the executor"
+    if kv "started" != "true" then .error s!"C08/C11: the refresh time of key {g "key"} had passed but no reload was started within 3 s (nothing was handed to the executor, or a task that waits for work queued behind it blocks a bounded executor)"
     else if kv "settled" != "true" then .error s!"C08/C11: the reload of key {g "key"} returned but its call is still registered as in flight"
     else if g "readsother" != 0 then
       .error s!"C11: {g "readsother"} read(s) made before the reload finished did not return the cached value {g "old"} (one returned {kv "sample"}; -1 = absent)"
@@ -723,6 +756,7 @@ def dispatch (cmd : String) (_args : List String) (h : IO.FS.Stream) : IO UInt32
   | "concresize" => loop h () czStep () "" 0 false {}; return 0
   | "keys" => loop h ([] : List (Nat × Nat)) ukStep [] "" 0 false {}; return 0
   | "concrefresh" => loop h () crfStep () "" 0 false {}; return 0
+  | "concwindow" => loop h () cwStep () "" 0 false {}; return 0
   | "concevents" => loop h ({} : CeSt) ceStep {} "" 0 false {}; return 0
   | "concmpsc" => loop h ({} : CmSt) cmStep {} "" 0 false {}; return 0
   | "concdrain" => loop h () cdStep () "" 0 false {}; return 0
